@@ -368,7 +368,7 @@ func (p *parser) parseExpr(minPrec int) (Expr, error) {
 
 func (p *parser) parseUnary() (Expr, error) {
 	t := p.peek()
-	if t.kind == "op" && (t.s == "!" || t.s == "-") {
+	if t.kind == "op" && (t.s == "!" || t.s == "-" || t.s == "*") {
 		p.next()
 		x, err := p.parseUnary()
 		if err != nil {
@@ -957,8 +957,8 @@ func (p *parser) parseClauses(fc *FuncContract) error {
 				return err
 			}
 			rhs := e
-			if b, ok := e.(*EBin); ok && b.Op == "==>" {
-				rhs = b.R
+			if b, ok := e.(*EBin); ok && (b.Op == "==>" || b.Op == "<==>") {
+				rhs = b.R // `cond <==> ghostPred(args)`: the predicate IS the function's verdict
 			}
 			if eq, ok := rhs.(*EBin); ok && eq.Op == "==" { // result == ghostFunc(args): names the result
 				if _, isCall := eq.R.(*ECall); isCall {
@@ -1011,8 +1011,8 @@ func (p *parser) parseClauses(fc *FuncContract) error {
 				return p.errf("loop ordinal expected")
 			}
 			kind := p.next().s
-			if kind != "invariant" && kind != "decreases" {
-				return p.errf("expected invariant or decreases")
+			if kind != "invariant" && kind != "decreases" && kind != "onrepeat" {
+				return p.errf("expected invariant, decreases or onrepeat")
 			}
 			props, label := p.parseClauseTag()
 			start := p.peek().pos
